@@ -198,4 +198,45 @@ theorem parseRedir_fd_out_of_range (n : Nat) (hn : 2147483647 < n) (c : Char) (b
 
 
 
+
+/-! ## Fuel -/
+/-- every accepted command line consumes at least one character -/
+def LineProgress (pc : CmdParser) : Prop :=
+  ∀ cs l r, parseCommandLine pc cs = some (some l, r) → r.length < cs.length
+
+/-- the line loop never runs out of fuel once the fuel exceeds the input length: more fuel changes nothing -/
+theorem parseLines_fuel_stable (pc : CmdParser) (hp : LineProgress pc) :
+    ∀ (n : Nat) (cs : List Char) (f1 f2 : Nat), cs.length ≤ n → n + 1 ≤ f1 → n + 1 ≤ f2 →
+      parseLines pc f1 cs = parseLines pc f2 cs := by
+  intro n
+  induction n with
+  | zero =>
+    intro cs f1 f2 hc h1 h2
+    obtain ⟨k1, rfl⟩ : ∃ k, f1 = k + 1 := ⟨f1 - 1, by omega⟩
+    obtain ⟨k2, rfl⟩ : ∃ k, f2 = k + 1 := ⟨f2 - 1, by omega⟩
+    simp only [parseLines]
+    cases h : parseCommandLine pc cs with
+    | none => rfl
+    | some p =>
+      obtain ⟨o, r⟩ := p
+      cases o with
+      | none => rfl
+      | some l => have := hp cs l r h; omega
+  | succ n ih =>
+    intro cs f1 f2 hc h1 h2
+    obtain ⟨k1, rfl⟩ : ∃ k, f1 = k + 1 := ⟨f1 - 1, by omega⟩
+    obtain ⟨k2, rfl⟩ : ∃ k, f2 = k + 1 := ⟨f2 - 1, by omega⟩
+    simp only [parseLines]
+    cases h : parseCommandLine pc cs with
+    | none => rfl
+    | some p =>
+      obtain ⟨o, r⟩ := p
+      cases o with
+      | none => rfl
+      | some l =>
+        have := hp cs l r h
+        simp only []
+        rw [ih r k1 k2 (by omega) (by omega) (by omega)]
+
+
 end YashModel.Syntax
